@@ -39,6 +39,9 @@ func main() {
 	case "c12":
 		os.Exit(c12.Main(os.Args[2:]))
 	case "c13":
+		if len(os.Args) > 2 && (os.Args[2] == "composite" || os.Args[2] == "compsets") {
+			os.Exit(c13.CompositeMain(os.Args[2:]))
+		}
 		os.Exit(c13.Main(os.Args[2:]))
 	case "c08":
 		os.Exit(c08.Main(os.Args[2:]))
